@@ -19,7 +19,8 @@ EXPLANATION = (
     "`started && enabled` and removed otherwise, with one id; (T4) the worker's dispatch gate reads the same state as "
     "the registration predicate and the kick eventfd is consumed only when the gate is true; (T5) the registration is "
     "level-triggered (plain IN)."
-    " T1/T2 are decided on the control handlers with the daemon handler's private helpers inlined: mutations cannot be skipped by a loop iteration, RESET_DEVICE's loop is unconditional, the PROTOCOL_FEATURES test reads this message's features, a kick descriptor is dropped only after the registration update that follows the stop; T3 additionally: add/delete conditions hold on every path (path-sensitive), the update always decides once the owner is found, and only the registration update and the listener API change the epoll set.")
+    " T1/T2 are decided on the control handlers with the daemon handler's private helpers inlined: mutations cannot be skipped by a loop iteration, RESET_DEVICE's loop is unconditional, the PROTOCOL_FEATURES test reads this message's features, a kick descriptor is dropped only after the registration update that follows the stop; T3 additionally: add/delete conditions hold on every path (path-sensitive), the update always decides once the owner is found, and only the registration update and the listener API change the epoll set."
+    ' Round 4/5: (T2) falls back to the feasible paths when the bare graph has a path no execution takes; (T3) a failed epoll add is an error unless the descriptor is already registered; (T6-T10) C02/D3 for the ring adapters, C14/Q12, C02/D2, C07/G2, C17/E3.')
 NOT_DECIDED = "Sequences of messages (checked transition by transition), eventual delivery, real epoll behaviour."
 
 # handler -> list of (mutator, expected argument): 'param:<name>' | 'const:<v>' | 'none'
@@ -244,6 +245,21 @@ def run_on(fb, chk, tag=""):
         for a0, a1, line in vals:
             ok = peel(a0)[0][0] == "param" and peel(a0)[0][2] == "index" and "queue_next_avail" in show(a1)
             chk.check(ok, "T1", tag + "get_vring_base:result", "returns (index, queue_next_avail())", "returns %s" % [show(x)[:40] for x in (a0, a1)], f.loc(line))
+    # SET_VRING_ENABLE is honoured only once VHOST_USER_F_PROTOCOL_FEATURES was acked (before that the rings are enabled by
+    # SET_FEATURES itself): the test of the daemon's acked features against that bit is a must-fact at the mutation
+    f_en = ch.get("set_vring_enable")
+    if f_en is not None:
+        from vlint.gates import gates_at
+        men = must_of(fb, f_en)
+        for (bb_, t_, c_) in daemon.ring_calls(fb, f_en, daemon.STATE_MUTATORS):
+            if c_["name"] != "set_enabled":
+                continue
+            gs_ = [(g_[0], g_[1]) for g_ in gates_at(fb, men, bb_)]
+            okg = any(b_ == wire.VIRTIO_FEATURES["PROTOCOL_FEATURES"] and "acked" in (fld_ or "") for fld_, b_ in gs_)
+            chk.check(okg, "T1", tag + "set_vring_enable:gate", "set_enabled under acked_features & PROTOCOL_FEATURES != 0",
+                      "the daemon's set_vring_enable changes the enabled flag without the must-fact `acked_features & "
+                      "VHOST_USER_F_PROTOCOL_FEATURES != 0` (gate facts: %s): a frontend that did not negotiate the bit can disable / enable "
+                      "rings that SET_FEATURES enabled" % gs_, f_en.loc(t_["line"]))
     # ------------------------------------------------------------------ T2
     for name, f in sorted(ch.items()):
         m = must_of(fb, f)
@@ -328,6 +344,7 @@ def run_on(fb, chk, tag=""):
     if len(adds) == 1 and len(dels) == 1:
         ab, at, ac = adds[0]
         db, dt, dc = dels[0]
+        at_name = ac["name"]
         # path-sensitive: every path that reaches the add has seen started && enabled true; every path that reaches the
         # delete has seen one of them false (however the test is spelled: nested ifs, `a && b` in a local, a bool parameter
         # of an inlined helper ...)
@@ -366,6 +383,26 @@ def run_on(fb, chk, tag=""):
                 n_owner += 1
                 if ab not in o.path and db not in o.path:
                     undecided += 1
+        # a failed add is reported unless the descriptor was already there: the request must not be acknowledged for a ring
+        # that is not being polled (and re-enabling an enabled ring is not an error)
+        add_err = {"reported": 0, "swallowed": 0, "exists_ok": 0, "exists_err": 0}
+        for o in outs2:
+            if o.ret is None or o.cut or ab not in o.path:
+                continue
+            failed = any(a[0] == "notok" and isinstance(a[1], tuple) and a[1][0] == "call" and a[1][1] == at_name for a in o.atoms)
+            if not failed:
+                continue
+            kinds = [a for a in o.atoms if a[0] == "cmp" and a[1] in ("Eq", "Ne") and "kind(" in show(a[2]) and "AlreadyExists" in show(a[3])]
+            okr = ret_okness(o.ret)
+            if any(a[1] == "Eq" for a in kinds):
+                add_err["exists_ok" if okr is True else "exists_err"] += 1
+            else:
+                add_err["reported" if okr is False else "swallowed"] += 1
+        chk.check(add_err["reported"] >= 1 and add_err["swallowed"] == 0 and add_err["exists_err"] == 0, "T3", tag + "add:failure-reported",
+                  "a failed add is an error unless the descriptor is already registered %s" % add_err,
+                  "the registration update %s: a ring can be acknowledged as live while its kick descriptor is not polled" %
+                  ("swallows a failed epoll add" if add_err["swallowed"] or not add_err["reported"] else "fails when the descriptor is already registered"),
+                  reg.loc(at["line"]))
         chk.check(n_owner >= 1 and undecided == 0, "T3", tag + "always-decides", "owner found => the kick descriptor is added or deleted (%d paths)" % n_owner,
                   "the registration update can return for the owning worker without adding or deleting the kick descriptor (%d of %d paths): "
                   "a descriptor installed while the ring was already active is never polled" % (undecided, n_owner), reg.loc())
